@@ -425,17 +425,28 @@ Section Main.
       destruct Hx as [n1 [A1 [B1 ->]]]. destruct Hy as [n2 [A2 [B2 ->]]]. apply H; assumption.
   Qed.
 
+  (* every type the producer offers for v and every type the consumer demands for it: annotated and compatible *)
   Definition TypeOK (nodes : list vnode) (s d v : name) : Prop :=
-    exists ns nd a b, find_v nodes s = Some ns /\ find_v nodes d = Some nd /\
-      dget (v_out_ty ns) v = Some a /\ dget (v_in_ty nd) v = Some b /\ compat sub any_id a b = true.
+    exists ns nd, find_v nodes s = Some ns /\ find_v nodes d = Some nd /\
+      forall a b, In a (tys (v_out_ty ns) v) -> In b (tys (v_in_ty nd) v) ->
+        exists x y, a = Some x /\ b = Some y /\ compat sub any_id x y = true.
+
+  Lemma ty_pair_ok_spec a b :
+    ty_pair_ok sub any_id a b = true <-> exists x y, a = Some x /\ b = Some y /\ compat sub any_id x y = true.
+  Proof.
+    unfold ty_pair_ok. split.
+    - destruct a as [x|], b as [y|]; try discriminate. intros H. exists x, y. auto.
+    - intros (x & y & -> & -> & H). exact H.
+  Qed.
 
   Lemma type_ok_spec nodes s d v : type_ok sub any_id nodes s d v = true <-> TypeOK nodes s d v.
   Proof.
     unfold type_ok, TypeOK. split.
     - destruct (find_v nodes s) as [ns|]; [|discriminate]. destruct (find_v nodes d) as [nd|]; [|discriminate].
-      destruct (dget (v_out_ty ns) v) as [a|] eqn:Ea; [|discriminate].
-      destruct (dget (v_in_ty nd) v) as [b|] eqn:Eb; [|discriminate]. intros H. exists ns, nd, a, b. auto.
-    - intros [ns [nd [a [b [-> [-> [-> [-> H]]]]]]]]. exact H.
+      intros H. exists ns, nd. split; [reflexivity|]. split; [reflexivity|]. intros a b Ha Hb.
+      rewrite forallb_forall in H. specialize (H a Ha). rewrite forallb_forall in H. apply ty_pair_ok_spec, H, Hb.
+    - intros [ns [nd [-> [-> H]]]]. apply forallb_forall. intros a Ha. apply forallb_forall. intros b Hb.
+      apply ty_pair_ok_spec. apply H; assumption.
   Qed.
 
   Definition edge_dst (e : espec) : name := match e with ESpec _ d _ => d end.
